@@ -257,6 +257,66 @@ example : serve Features.allOn ⟨.GET, ["api", "ports"], .valid .admin, .json, 
 example : serve { Features.allOn with vports := false } ⟨.POST, ["api", "ports"], .valid .admin, .json, true⟩
     = .status 404 := by decide
 
+/-! ## The password configuration (all 8 combinations of empty / set passwords) -/
+
+/-- `prepare`'s rule: a request without Authorization header is admin iff the ADMIN password is empty, whatever
+the normal and view-only passwords are; otherwise it has no level. -/
+theorem no_header_level (pw : Passwords) :
+    levelOf ⟨pw, .noHeader⟩ = if pw.adminEmpty then .admin else .none := rfl
+
+/-- A caller without valid credentials (no header or an invalid one) has level none unless the admin password is
+empty — for every configuration of the other two passwords. -/
+theorem without_valid_credentials_level_none (a : Auth) (hc : ∀ l, a.cred ≠ .valid l)
+    (hp : a.pw.adminEmpty = false) : levelOf a = .none := by
+  unfold levelOf
+  cases h : a.cred with
+  | noHeader => simp [hp]
+  | invalid => rfl
+  | valid l => exact absurd h (hc l)
+
+/-- An invalid header never gives a level, whatever the passwords (even with an empty admin password). -/
+theorem invalid_header_level_none (pw : Passwords) : levelOf ⟨pw, .invalid⟩ = .none := rfl
+
+/-- **A caller without valid credentials gets exactly 401 on every endpoint that requires a level**, unless the
+admin password is empty (well-formed request, enabled endpoint) — whatever the normal / view-only passwords. -/
+theorem without_valid_credentials_401 (f : Features) (q : Req) (r : Route) (c : Category)
+    (hmatch : (pattern r).matches q.path = true) (hen : enabled f r = true)
+    (hc : classify r q.method = some c) (hreq : specLevel c ≠ .none)
+    (hcred : ∀ l, q.auth.cred ≠ .valid l) (hp : q.auth.pw.adminEmpty = false)
+    (hg : methodGuard f r q.method = true) (hb : q.method.hasBody = true → q.body = .json)
+    (hs : q.sessionOk = true) :
+    ∃ fn, handlerFn r q.method = some fn ∧ serve f q = .refused 401 fn := by
+  have hl := without_valid_credentials_level_none q.auth hcred hp
+  have hlow : levelOf q.auth < specLevel c := by
+    rw [hl]; revert hreq; cases specLevel c <;> intro h <;> first | exact absurd rfl h | decide
+  obtain ⟨fn, hh, hserve⟩ := lower_level_refused f q r c hmatch hen hc hlow hg hb hs
+  rw [hl] at hserve
+  exact ⟨fn, hh, hserve⟩
+
+/-- The normal and view-only passwords being empty or set never changes how a request is answered. -/
+theorem only_admin_password_matters (f : Features) (m : Method) (p : List String) (b : Body) (s : Bool)
+    (cred : Cred) (pw pw' : Passwords) (h : pw.adminEmpty = pw'.adminEmpty) :
+    serve f ⟨m, p, ⟨pw, cred⟩, b, s⟩ = serve f ⟨m, p, ⟨pw', cred⟩, b, s⟩ := by
+  have hl : levelOf ⟨pw, cred⟩ = levelOf ⟨pw', cred⟩ := by unfold levelOf; cases cred <;> simp [h]
+  have ha : Auth.authenticated ⟨pw, cred⟩ = Auth.authenticated ⟨pw', cred⟩ := by
+    unfold Auth.authenticated; cases cred <;> simp [h]
+  unfold serve sessionBad effectiveLevel
+  simp only [hl, ha]
+
+example : serve Features.allOn ⟨.GET, ["api", "ports"], ⟨⟨false, true, true⟩, .noHeader⟩, .json, true⟩
+    = .refused 401 .getPorts ∧
+    serve Features.allOn ⟨.PATCH, ["api", "ports", "p1", "value"], ⟨⟨false, true, false⟩, .noHeader⟩, .json, true⟩
+    = .refused 401 .patchPortValue ∧
+    serve Features.allOn ⟨.GET, ["api", "device"], ⟨⟨true, false, false⟩, .invalid⟩, .json, true⟩
+    = .refused 401 .getDevice ∧
+    serve Features.allOn ⟨.GET, ["api", "device"], ⟨⟨true, false, true⟩, .noHeader⟩, .json, true⟩
+    = .run .getDevice := by decide
+
+/-- hypotheses of `without_valid_credentials_401` for each of the four configurations with a set admin password -/
+example : ∀ pw ∈ Passwords.all, pw.adminEmpty = false →
+    serve Features.allOn ⟨.PATCH, ["api", "ports", "p1", "value"], ⟨pw, .noHeader⟩, .json, true⟩
+      = .refused 401 .patchPortValue := by decide
+
 /-! ## Non-vacuity: concrete requests meeting the hypotheses of the theorems above -/
 
 /-- hypotheses of `lower_level_never_served` / `lower_level_refused` / `lower_level_no_state_change` -/
